@@ -54,6 +54,10 @@ fn parse_range(s: &str) -> Option<Range> {
 }
 
 fn parse_op(line: &str) -> Op {
+    // a LIST / DELETE reached with the cursor in mid-line is the same LIST / DELETE
+    if let Some(r) = line.strip_prefix("PRINT \"X\";:") {
+        return parse_op(r);
+    }
     if REJECTED_FORMS.contains(&line) {
         return Op::Rejected;
     }
@@ -232,6 +236,9 @@ fn ops_over(universe: &[u32]) -> Vec<String> {
     // compound direct lines: every statement of the line runs
     if let (Some(a), Some(b)) = (universe.first(), universe.last()) {
         // (DELETE returns to the prompt, so it only stands last: what follows it is not documented)
+        v.push(format!("PRINT \"X\";:LIST {}-{}", a, b));
+        v.push("PRINT \"X\";:LIST".to_string());
+        v.push(format!("PRINT \"X\";:DELETE {}", b));
         v.push(format!("LIST {}:LIST {}", a, b));
         v.push(format!("LIST {}:DELETE {}", b, a));
         v.push(format!("LIST -{}:LIST {}-:DELETE {}-{}", a, b, a, b));
